@@ -201,6 +201,8 @@ func scenariosFor(prop string) []scn {
 		both(flowParams{Sources: 1, Records: 1, Batch: 1, Dests: 2, AckMenu: onlyOK, GateDestOpen: true, Ctl: []string{"stop", "start", "stopwait"}, Retries: 1}, 2, 3)
 		// the store refuses a status write (e.g. the write of "running" at the end of Start)
 		both(flowParams{Sources: 1, Records: 1, Batch: 1, Dests: 1, AckMenu: onlyOK, Faults: true, Ctl: []string{"stopwait", "start", "stopwait"}}, 2, 3)
+		// ... the history ends with a Start whose own status write may be refused: a Start that reports failure leaves nothing running
+		both(flowParams{Sources: 1, Records: 1, Batch: 1, Dests: 1, AckMenu: onlyOK, Faults: true, Ctl: []string{"stopwait", "start"}}, 1, 2)
 		// ... and a Start is repeated after one whose own status write was refused
 		both(flowParams{Sources: 1, Records: 1, Batch: 1, Dests: 1, AckMenu: onlyOK, Faults: true, Ctl: []string{"stopwait", "start", "start", "stopwait"}}, 1, 2)
 		// the first Start cannot build its nodes (a plugin cannot be dispensed): nothing may stay reserved, the next Start works
